@@ -302,7 +302,7 @@ func TestKnownD1(t *testing.T) {
 
 var forgeries = []string{"genuine", "tx-added", "header.AppHash", "header.Time", "header.Proposer", "evidence-hash", "other-valid-block",
 	"second.commit-below-23", "second.commit-wrong-signers", "second.commit-other-round", "second.commit-other-id", "second.commit-all-nil-flag", "second.commit-duplicated-signer",
-	"pair.nil-precommits", "pair.at-most-two-thirds", "pair.at-most-two-thirds", "pair.wrong-signers", "pair.signer-at-wrong-index"}
+	"pair.nil-precommits", "pair.at-most-two-thirds", "pair.at-most-two-thirds", "pair.wrong-signers", "pair.signer-at-wrong-index", "pair.one-signer-under-own-address"}
 
 // TestBlockSync drives the REAL block-sync processor of a fresh node with genuine and forged blocks of a real chain.
 func TestBlockSync(t *testing.T) {
@@ -582,7 +582,16 @@ func forgePair(s *netsim.Sim, src *netsim.Node, genuine map[uint64]*types.Block,
 		}
 		id := fid
 		flag := types.BlockIDFlagCommit
-		if kind == "pair.nil-precommits" {
+		claim := v.Address // the address the commit signature claims to come from
+		if kind == "pair.one-signer-under-own-address" {
+			// the weakest validator's precommit for F in EVERY slot, each under its own address (a verifier that finds the
+			// signer by the address carried in the signature instead of by slot counts that validator's power n times)
+			w := vals.Validators[vals.Size()-1]
+			if w.VotingPower*3 > total*2 || vals.Size() < 2 {
+				return nil, nil
+			}
+			k, claim = keyOf(w.Address), w.Address
+		} else if kind == "pair.nil-precommits" {
 			id, flag = types.BlockID{}, types.BlockIDFlagNil
 		} else if kind == "pair.wrong-signers" {
 			k = 200 + i // a key outside the validator set signs, claiming the validator's address
@@ -599,14 +608,14 @@ func forgePair(s *netsim.Sim, src *netsim.Node, genuine map[uint64]*types.Block,
 			continue
 		}
 		have += v.VotingPower
-		vote := &types.Vote{ValidatorAddress: v.Address, ValidatorIndex: uint32(i), Height: h, Round: round, Timestamp: F.Time().Add(time.Second), Type: kproto.PrecommitType, BlockID: id}
+		vote := &types.Vote{ValidatorAddress: claim, ValidatorIndex: uint32(i), Height: h, Round: round, Timestamp: F.Time().Add(time.Second), Type: kproto.PrecommitType, BlockID: id}
 		pv := vote.ToProto()
 		signer := netsim.Key(k)
 		if k < len(s.Keys) {
 			signer = s.Keys[k]
 		}
 		types.NewDefaultPrivValidator(signer).SignVote(s.G.ChainID, pv)
-		sigs[i] = types.CommitSig{BlockIDFlag: flag, ValidatorAddress: v.Address, Timestamp: vote.Timestamp, Signature: pv.Signature}
+		sigs[i] = types.CommitSig{BlockIDFlag: flag, ValidatorAddress: claim, Timestamp: vote.Timestamp, Signature: pv.Signature}
 	}
 	lc := types.NewCommit(h, round, fid, sigs)
 	g2 := genuine[h+1]
